@@ -74,8 +74,13 @@ def main():
         from abstraction import a_exc
         import traceback
         info = a_exc(e)
+        if isinstance(e, (ImportError, MemoryError)) or 'tlc.' in type(e).__module__ + '.':
+            raise            # the environment / the machinery itself (exit 2)
+        # with no pamqp frame in the traceback the driver's own code failed on what the library handed back (an attribute
+        # that is no longer there, None where a name was, a class where an instance was): on the unchanged tree no driver
+        # fails for any seed explored, so this too is a verdict about the tree, reported under its own signature
         if not info['site']:
-            raise            # nothing of pamqp in the traceback: the harness itself is at fault (exit 2)
+            info['site'] = 'driver'
         # the library refused a call this driver makes on every run: a verdict for TLC, not a crash
         where = [f for f in traceback.extract_tb(e.__traceback__) if '/harness/' in f.filename and 'observers' not in f.filename]
         ctx.rec.add('DriverAbort', [prop], nt=True, out=info, sigx='%s@%s' % (info['type'], info['site']),
